@@ -37,7 +37,7 @@ def check_tables(run, tables, ex, jnp, rng, tier):
         if cls == "Wave":
             check_wave(run, D, N, table, ex, jnp, rng)
             continue
-        for lab, params, (rname, kw) in linear.draw_variants(cls, mix, D, rng):
+        for lab, params, (rname, kw) in linear.draw_variants(cls, mix, D, rng, maxj=4 if N > 35 else 6):
             for rep in range(2 if tier == "quick" else 4):
                 L, dt = rand_params(rng)
                 if rng.uniform() < 0.3:
@@ -58,7 +58,9 @@ def check_tables(run, tables, ex, jnp, rng, tier):
                 ok_finite = np.real(z) < 600
                 want = np.exp(np.where(ok_finite, z, 0))
                 got = np.asarray(st.step_fourier(jnp.ones((1,) + wshape(D, N), dtype=complex)))[0]
-                tol = 1e-11 * (1 + np.abs(np.imag(z))) * np.maximum(1.0, np.abs(want))
+                # rounding of the argument: every term of the symbol is rounded at its own magnitude (terms may cancel, e.g. c (k1 + k2 + k3) = 0)
+                zabs = linear.symbol_abs_array(D, N, table, params, omega) * abs(dt)
+                tol = 1e-11 * (1 + zabs) * np.maximum(1.0, np.abs(want))
                 bad = ok_finite & ~(np.abs(got - want) <= tol)
                 if bad.any():
                     s = tuple(int(i) for i in np.argwhere(bad)[0])
@@ -76,7 +78,7 @@ def check_tables(run, tables, ex, jnp, rng, tier):
                     got_u = np.asarray(st(jnp.asarray(u)))
                     want_u = exact_evolve(ex, jnp, u, z, D, N)
                     scale = 1 + maxabs(want_u)
-                    if got_u.shape != u.shape or maxabs(got_u - want_u) > 1e-10 * scale * (1 + np.abs(np.imag(z)).max()):
+                    if got_u.shape != u.shape or maxabs(got_u - want_u) > 1e-10 * scale * (1 + zabs.max()):
                         run.violation(dict(key, what="stepper(u) vs analytic"), {"err": maxabs(got_u - want_u), "L": L, "dt": dt})
         # the normalized / difficulty interfaces of the generic family
         if cls == "GeneralLinear":
@@ -181,7 +183,7 @@ def check_behaviours(run, tables, behs, ex, jnp, rng, tier):
             done += 1 if check_wave_behaviour(run, D, N, hist, ex, jnp, rng) else 0
             continue
         table = tables[(cls, mix, D, N)]
-        variants = linear.draw_variants(cls, mix, D, rng)
+        variants = linear.draw_variants(cls, mix, D, rng, maxj=4 if N > 35 else 6)
         if not variants:
             continue
         lab, params, (rname, kw) = variants[-1] if cls != "GeneralLinear" else variants[2]
